@@ -92,6 +92,14 @@ func scenDispatch(rng *rand.Rand, tr *sim.Trace, seg int, events int) {
 				q.implied = rng.Intn(3) == 0
 				if m == "put" && rng.Intn(3) != 0 {
 					q.extra = map[string]sim.Value{"v": []byte("hello"), "seq": int64(1)}
+					switch rng.Intn(4) {
+					case 0: // a put the store rejects: bad signature
+						q.extra["k"] = make([]byte, 32)
+						q.extra["k"].([]byte)[0] = 1
+						q.extra["sig"] = make([]byte, 64)
+					case 1: // value too big
+						q.extra["v"] = make([]byte, 1001+rng.Intn(500))
+					}
 				}
 			}
 			switch rng.Intn(14) {
@@ -171,6 +179,12 @@ func scenTokens(rng *rand.Rand, tr *sim.Trace, seg int, events int) {
 				sig := ed25519.Sign(priv, append([]byte("3:seqi"+string(rune('0'+seq))+"e1:v"), sim.Encode(v)...))
 				q = &query{method: "put", t: h.nextT(), hasA: true, id: id, port: -1, hasTok: use != nil, tok: use,
 					extra: map[string]sim.Value{"v": v, "seq": seq, "k": []byte(priv.Public().(ed25519.PublicKey)), "sig": sig}}
+				switch rng.Intn(6) {
+				case 0: // rejected by the store: signature does not verify
+					q.extra["sig"] = make([]byte, 64)
+				case 1: // rejected by the store: salt too big
+					q.extra["salt"] = make([]byte, 65+rng.Intn(100))
+				}
 				if rng.Intn(3) == 0 {
 					q.extra = map[string]sim.Value{"v": []byte("immutable value")}
 					if rng.Intn(2) == 0 {
